@@ -126,6 +126,16 @@ pub struct GateSpec {
     pub additive: bool,
     /// number of rows the generator tries to enable it on
     pub placements: usize,
+    /// non-empty ⇒ the gate queries a SECOND (complex) selector q used as a mode switch, not as a
+    /// multiplicative guard: constraint i is `out_i − (q·G_i + (1−q)·alt_i)`; q is enabled on the
+    /// placements whose row has `mode_on(row)`
+    #[serde(default)]
+    pub alt: Vec<GExpr>,
+}
+
+/// value-independent mode of a placement row of a mode-switch gate
+pub fn mode_on(row: usize) -> bool {
+    (row.wrapping_mul(0x9E37_79B9) >> 4) & 1 == 1
 }
 
 #[derive(Clone, Debug, Serialize, Deserialize, PartialEq, Eq, Hash)]
@@ -232,6 +242,9 @@ impl GenSpec {
         if self.gates.iter().any(|g| !g.additive) {
             f.push("gate".into());
         }
+        if self.gates.iter().any(|g| !g.alt.is_empty()) {
+            f.push("mode_selector".into());
+        }
         for l in &self.lookups {
             f.push(match l.kind {
                 TableKind::Table => "lookup".into(),
@@ -257,7 +270,11 @@ impl GenSpec {
         let maxdeg = self
             .gates
             .iter()
-            .map(|g| g.cons.iter().map(|c| c.g.degree()).max().unwrap_or(0) + if g.additive { 0 } else { 1 })
+            .map(|g| {
+                g.cons.iter().map(|c| c.g.degree()).chain(g.alt.iter().map(|a| a.degree())).max().unwrap_or(0)
+                    + if g.additive { 0 } else { 1 }
+                    + if g.alt.is_empty() { 0 } else { 1 }
+            })
             .max()
             .unwrap_or(0);
         f.push(format!("deg{maxdeg}"));
@@ -426,16 +443,18 @@ impl Plan {
                 let mut ok = true;
                 for c in &g.cons {
                     rots.push(c.out.1);
-                    rots.extend(c.g.adv_queries().iter().map(|q| q.1));
-                    rots.extend(c.g.fix_queries().iter().map(|q| q.1));
-                    rots.extend(c.g.inst_queries().iter().map(|q| q.1));
+                }
+                for e in g.cons.iter().map(|c| &c.g).chain(g.alt.iter()) {
+                    rots.extend(e.adv_queries().iter().map(|q| q.1));
+                    rots.extend(e.fix_queries().iter().map(|q| q.1));
+                    rots.extend(e.inst_queries().iter().map(|q| q.1));
                 }
                 if !rows_ok(row, rots.iter().copied(), work_limit) {
                     continue;
                 }
                 // instance queries may only read free entries or padding zeros
-                for c in &g.cons {
-                    for (_, rot) in c.g.inst_queries() {
+                for e in g.cons.iter().map(|c| &c.g).chain(g.alt.iter()) {
+                    for (_, rot) in e.inst_queries() {
                         let r = at(row, rot);
                         // only free (assigned) instance entries may be read: the repository's mock
                         // checker deliberately flags gates that read unassigned (padding)
@@ -454,8 +473,8 @@ impl Plan {
                 if !ok {
                     continue;
                 }
-                for c in &g.cons {
-                    for (col, rot) in c.g.adv_queries() {
+                for e in g.cons.iter().map(|c| &c.g).chain(g.alt.iter()) {
+                    for (col, rot) in e.adv_queries() {
                         inputs.insert((col, at(row, rot)));
                     }
                 }
@@ -470,8 +489,8 @@ impl Plan {
                         });
                     }
                 }
-                for c in &g.cons {
-                    for (col, rot) in c.g.fix_queries() {
+                for e in g.cons.iter().map(|c| &c.g).chain(g.alt.iter()) {
+                    for (col, rot) in e.fix_queries() {
                         plan.fixed_vals
                             .entry((col, at(row, rot)))
                             .or_insert_with(|| rng.gen_range(0..1u64 << 32));
@@ -788,8 +807,10 @@ pub fn compute_witness<F: PrimeField + FromUniformBytes<64>>(
                 adv.insert(*cell, v);
             }
             Step::Gate { gate, con, row } => {
-                let c = &spec.gates[*gate].cons[*con];
-                let v = eval_g(&c.g, *row, &adv, &plan.fixed_vals, &instance, chal);
+                let g = &spec.gates[*gate];
+                let c = &g.cons[*con];
+                let e = if g.alt.is_empty() || mode_on(*row) { &c.g } else { &g.alt[*con] };
+                let v = eval_g(e, *row, &adv, &plan.fixed_vals, &instance, chal);
                 adv.insert((c.out.0, at(*row, c.out.1)), v);
             }
             Step::Equal(..) => {}
@@ -827,6 +848,7 @@ pub struct GenConfig {
     pub instance: Vec<Column<Instance>>,
     pub challenges: Vec<Challenge>,
     pub gate_sel: Vec<Selector>,
+    pub gate_mode_sel: Vec<Option<Selector>>,
     pub lookup_sel: Vec<Selector>,
     pub lookup_tables: Vec<Vec<TableColumn>>,
     /// for any-tables: enable column + (for AnyFixed) the fixed table columns
@@ -953,6 +975,7 @@ impl<F: PrimeField + FromUniformBytes<64>> Circuit<F> for GenCircuit {
             instance,
             challenges,
             gate_sel: vec![],
+            gate_mode_sel: vec![],
             lookup_sel: vec![],
             lookup_tables: vec![],
             any_enable: vec![],
@@ -964,15 +987,25 @@ impl<F: PrimeField + FromUniformBytes<64>> Circuit<F> for GenCircuit {
             // additive selectors must be complex (the library asserts it when converting selectors)
             let sel = if g.additive { meta.complex_selector() } else { meta.selector() };
             cfg.gate_sel.push(sel);
+            let mode_sel = if g.alt.is_empty() { None } else { Some(meta.complex_selector()) };
+            cfg.gate_mode_sel.push(mode_sel);
             let cfg_ref = cfg.clone();
             let g2 = g.clone();
             meta.create_gate("gen", move |m| {
                 let cons: Vec<Expression<F>> = g2
                     .cons
                     .iter()
-                    .map(|c| {
+                    .enumerate()
+                    .map(|(ci, c)| {
                         let out = m.query_advice(cfg_ref.advice[c.out.0], Rotation(c.out.1));
-                        out - to_expr(&c.g, m, &cfg_ref)
+                        match mode_sel {
+                            None => out - to_expr(&c.g, m, &cfg_ref),
+                            Some(qs) => {
+                                let q = m.query_selector(qs);
+                                let one = Expression::Constant(F::ONE);
+                                out - (q.clone() * to_expr(&c.g, m, &cfg_ref) + (one - q) * to_expr(&g2.alt[ci], m, &cfg_ref))
+                            }
+                        }
                     })
                     .collect();
                 if g2.additive {
@@ -1188,6 +1221,11 @@ impl<F: PrimeField + FromUniformBytes<64>> Circuit<F> for GenCircuit {
                 for (gi, rows) in plan.gate_rows.iter().enumerate() {
                     for r in rows {
                         cfg.gate_sel[gi].enable(&mut region, *r)?;
+                        if let Some(q) = cfg.gate_mode_sel[gi] {
+                            if mode_on(*r) {
+                                q.enable(&mut region, *r)?;
+                            }
+                        }
                     }
                 }
                 for (li, rows) in plan.lookup_rows.iter().enumerate() {
@@ -1387,7 +1425,8 @@ fn gen_expr(rng: &mut ChaCha8Rng, cx: &ExprCtx, degree: usize, depth: usize) -> 
             )
         }
         7 => GExpr::Neg(Box::new(gen_expr(rng, cx, degree, depth - 1))),
-        8 => GExpr::Scale(Box::new(gen_expr(rng, cx, degree, depth - 1)), rng.gen_range(2..50)),
+        // (scale factor 0 now and then: a summand that is identically zero must change nothing)
+        8 => GExpr::Scale(Box::new(gen_expr(rng, cx, degree, depth - 1)), if rng.gen_bool(0.15) { 0 } else { rng.gen_range(2..50) }),
         _ => gen_leaf(rng, cx),
     }
 }
@@ -1443,6 +1482,9 @@ pub fn gen_spec<F: PrimeField + FromUniformBytes<64>>(
                 }
             }
         }
+        // a third of the ordinary gates carry a second selector used as a mode switch
+        let with_mode = !additive && knobs.max_degree >= 4 && rng.gen_bool(0.35);
+        let mut alt: Vec<GExpr> = vec![];
         let cons = cons_out
             .iter()
             .map(|(oc, or)| {
@@ -1458,18 +1500,21 @@ pub fn gen_spec<F: PrimeField + FromUniformBytes<64>>(
                     max_rot: knobs.max_rot,
                     forbidden: &outs,
                 };
-                let budget = if additive { knobs.max_degree.min(5) } else { knobs.max_degree - 1 };
+                let budget = if additive { knobs.max_degree.min(5) } else { knobs.max_degree - 1 - usize::from(with_mode) };
                 let deg = rng.gen_range(1..=budget.max(1));
-                ConsSpec {
-                    out: (*oc, *or),
-                    g: gen_expr(rng, &cx, deg, 4),
+                let g = gen_expr(rng, &cx, deg, 4);
+                if with_mode {
+                    let deg = rng.gen_range(1..=budget.max(1));
+                    alt.push(gen_expr(rng, &cx, deg, 3));
                 }
+                ConsSpec { out: (*oc, *or), g }
             })
             .collect();
         GateSpec {
             cons,
             additive,
             placements: rng.gen_range(1..=6),
+            alt,
         }
     };
     for _ in 0..knobs.n_gates {
